@@ -5,6 +5,7 @@ go 1.19
 require (
 	github.com/google/gopacket v1.1.20-0.20210304165259-20562ffb40f8
 	github.com/v-byte-cpu/sx v0.0.0
+	github.com/vishvananda/netlink v1.1.0
 	go.uber.org/ratelimit v0.2.0
 	golang.org/x/net v0.0.0-20210813160813-60bc85c4be6d
 )
@@ -27,7 +28,6 @@ require (
 	github.com/sirupsen/logrus v1.4.2 // indirect
 	github.com/spf13/cobra v1.5.0 // indirect
 	github.com/spf13/pflag v1.0.5 // indirect
-	github.com/vishvananda/netlink v1.1.0 // indirect
 	github.com/vishvananda/netns v0.0.0-20191106174202-0a2b9b5464df // indirect
 	github.com/yl2chen/cidranger v1.0.2 // indirect
 	go.uber.org/atomic v1.7.0 // indirect
